@@ -48,8 +48,46 @@ def check(run, prog, tier):
     run.rule("C16-E", "index set, level tables, links and decay factors of the hierarchy (finite evaluation of the "
                       "constructor)", minimum=6)
     rule_E(run, prog, tier)
+    run.rule("C16-G", "bath parameters of the hierarchy are read per bath index: the getters forward the index they "
+                      "are given", minimum=2)
     run.rule("C16-F", "the open-system interface builds a hierarchy of the requested depth on every call", minimum=3)
     rule_F(run, prog)
+    rule_G(run, prog)
+
+
+def rule_G(run, prog):
+    """KTHierarchy.__init__ reads gamma_k, lambda_k and the correlation function of bath k with the loop
+    index k = 0..nbath-1.  The analytic pure-dephasing limit is reached only if all three belong to the
+    same bath: every getter of SystemBathInteraction called there with the loop index must hand that
+    index on unchanged to the correlation-function matrix (no offset, whatever else is attached)."""
+    rid = "C16-G"
+    init = prog.cls(HE + "KTHierarchy").methods["__init__"]
+    sb = prog.cls("quantarhei.qm.liouvillespace.systembathinteraction.SystemBathInteraction")
+    used = {}
+    for lp in [n for n in ast.walk(init.node) if isinstance(n, ast.For) and isinstance(n.target, ast.Name)]:
+        v = lp.target.id
+        for c in ast.walk(lp):
+            if isinstance(c, ast.Call) and isinstance(c.func, ast.Attribute) and norm(c.func.value) == "self.sbi" \
+                    and c.args and all(isinstance(a, ast.Name) and a.id == v for a in c.args):
+                used.setdefault(c.func.attr, c)
+    if len(used) < 2:
+        raise AnalysisError("KTHierarchy.__init__: per-bath getters of the system-bath interaction not found: %s" % sorted(used))
+    for gname, call in sorted(used.items()):
+        g = prog.find_method(sb, gname)
+        if g is None:
+            run.obligation(rid, "SystemBathInteraction." + gname, False, key="forwards-index",
+                           message="getter %s is called by the hierarchy but not defined" % gname, loc=init.loc(call))
+            continue
+        gp = [a.arg for a in g.node.args.args if a.arg != "self"]
+        fw = [c for c in ast.walk(g.node) if isinstance(c, ast.Call) and isinstance(c.func, ast.Attribute)
+              and norm(c.func.value) == "self.CC"]
+        bad = [norm(c) for c in fw if c.args and not all(isinstance(a, ast.Name) and a.id in gp for a in c.args)]
+        rebind = [norm(n) for n in ast.walk(g.node) if isinstance(n, (ast.Assign, ast.AugAssign))
+                  and any(isinstance(t_, ast.Name) and t_.id in gp for t_ in (n.targets if isinstance(n, ast.Assign) else [n.target]))
+                  and not (isinstance(n, ast.Assign) and isinstance(n.value, ast.Name) and n.value.id in gp)]
+        run.obligation(rid, "SystemBathInteraction." + gname, bool(fw) and not bad and not rebind, key="forwards-index",
+                       message="%s does not hand the bath index on unchanged: %s" % (gname, bad + rebind), loc=g.loc(),
+                       sample={"getter": gname, "forwarding_calls": len(fw)})
 
 
 def rule_F(run, prog):
